@@ -93,6 +93,13 @@ pub struct Opts {
     pub clocks: bool,
     /// record the initial world of every execution
     pub initial_world: bool,
+    /// Known findings "op X has no scheduling point in front of it": when set, the interpreter puts an
+    /// explicit scheduling point (a Shuttle atomic load) in front of the op, so that generated
+    /// programs keep searching *behind* the finding. Regression cases run with these off.
+    pub sync_endpoint_drops: bool,
+    pub sync_avail: bool,
+    pub sync_barrier: bool,
+    pub sync_acq_drop: bool,
 }
 
 /// Where executions deposit their logs; shared between the body closure and the harness.
@@ -556,7 +563,16 @@ async fn run_task(w: Arc<World>, me: usize, is_async: bool, ends: Ends) {
                 wr.condvars[*c].notify_all();
                 Some(0)
             }
-            Op::BWait(b) => Some(if wr.barriers[*b].wait().is_leader() { 1 } else { 0 }),
+            Op::BWait(b) => Some({
+                if wr.opts.sync_barrier {
+                    let _ = wr.tick.load(Ordering::SeqCst);
+                }
+                if wr.barriers[*b].wait().is_leader() {
+                    1
+                } else {
+                    0
+                }
+            }),
             Op::CallOnce(o, y) => {
                 let mut ran = false;
                 wr.onces[*o].call_once(|| {
@@ -599,6 +615,9 @@ async fn run_task(w: Arc<World>, me: usize, is_async: bool, ends: Ends) {
             }),
             Op::DropTx(c) => Some(match my_tx[*c].take() {
                 Some(e) => {
+                    if wr.opts.sync_endpoint_drops {
+                        let _ = wr.tick.load(Ordering::SeqCst);
+                    }
                     drop(e);
                     0
                 }
@@ -606,6 +625,9 @@ async fn run_task(w: Arc<World>, me: usize, is_async: bool, ends: Ends) {
             }),
             Op::DropRx(c) => Some(match my_rx[*c].take() {
                 Some(e) => {
+                    if wr.opts.sync_endpoint_drops {
+                        let _ = wr.tick.load(Ordering::SeqCst);
+                    }
                     drop(e);
                     0
                 }
@@ -718,7 +740,12 @@ async fn run_task(w: Arc<World>, me: usize, is_async: bool, ends: Ends) {
                 wr.sems[*s].close();
                 Some(0)
             }
-            Op::Avail(s) => Some(wr.sems[*s].available_permits() as i64),
+            Op::Avail(s) => Some({
+                if wr.opts.sync_avail {
+                    let _ = wr.tick.load(Ordering::SeqCst);
+                }
+                wr.sems[*s].available_permits() as i64
+            }),
             Op::AcqStart(s, n) => Some(if !is_async || acq.is_some() {
                 SKIP
             } else {
@@ -740,6 +767,9 @@ async fn run_task(w: Arc<World>, me: usize, is_async: bool, ends: Ends) {
             Op::AcqDrop => Some(match acq.take() {
                 None => SKIP,
                 Some(f) => {
+                    if wr.opts.sync_acq_drop {
+                        let _ = wr.tick.load(Ordering::SeqCst);
+                    }
                     drop(f);
                     0
                 }
@@ -805,6 +835,9 @@ async fn run_task(w: Arc<World>, me: usize, is_async: bool, ends: Ends) {
     });
     // End of task: release in a fixed order — kept acquisition, mutex guards (index order), rwlock
     // guards, join handles (detaches futures), sender ends, receiver. The model mirrors this order.
+    if acq.is_some() && wr.opts.sync_acq_drop {
+        let _ = wr.tick.load(Ordering::SeqCst);
+    }
     drop(acq);
     for g in mg.iter_mut() {
         drop(g.take());
@@ -816,10 +849,20 @@ async fn run_task(w: Arc<World>, me: usize, is_async: bool, ends: Ends) {
         drop(h.take());
     }
     for e in my_tx.iter_mut() {
-        drop(e.take());
+        if let Some(e) = e.take() {
+            if wr.opts.sync_endpoint_drops {
+                let _ = wr.tick.load(Ordering::SeqCst);
+            }
+            drop(e);
+        }
     }
     for e in my_rx.iter_mut() {
-        drop(e.take());
+        if let Some(e) = e.take() {
+            if wr.opts.sync_endpoint_drops {
+                let _ = wr.tick.load(Ordering::SeqCst);
+            }
+            drop(e);
+        }
     }
 }
 
